@@ -4,9 +4,12 @@ import glob, json, os, sys
 ROOT = os.path.dirname(os.path.dirname(os.path.abspath(__file__)))
 props = [json.loads(l)["id"] for l in open(os.path.join(ROOT, "properties.jsonl")) if l.strip()]
 checks = []
+enabled = open(os.path.join(ROOT, "checks.d", "enabled.txt")).read().split()
 for f in sorted(glob.glob(os.path.join(ROOT, "checks.d", "C*.json"))):
     c = json.load(open(f))
     pid = c["property_id"]
+    if pid not in enabled:
+        continue
     c.setdefault("quick_cmd", "bin/check.sh %s quick" % pid)
     c.setdefault("thorough_cmd", "bin/check.sh %s thorough" % pid)
     c.setdefault("evidence_file", "evidence/%s.json" % pid)
